@@ -160,7 +160,7 @@ func (p *Parser) parseNotationInComments(notations []*ast.Comment, validOps map[
 			}
 			opts.PostProcess = pp
 		default:
-			fmt.Printf("%v: unknown notation %v\n", p.fset.Position(n.Pos()), m[1])
+			logger.Warnf("%v: unknown notation %v", p.fset.Position(n.Pos()), m[1])
 		}
 	}
 
